@@ -150,6 +150,7 @@ def build_all(need_coq=True):
         # 5. harness against the working tree, hooks on
         t0 = time.time()
         hdir = os.path.join(VERIF, "harness")
+        gen_simdpkg(hdir, st)
         shutil.copy(os.path.join(REPO, "go.sum"), os.path.join(hdir, "go.sum"))
         hb = os.path.join(BUILD, "bin", "harness")
         rc, out, _ = run(["go", "build", "-tags", "verif,verif_internals", "-o", hb, "."], cwd=hdir, env=GOENV, timeout=600)
@@ -161,6 +162,54 @@ def build_all(need_coq=True):
                 raise Infra("harness does not build against %s:\n%s" % (REPO, out[-3000:]))
         st["times"]["harness"] = time.time() - t0
     return st
+
+
+def gen_simdpkg(hdir, st):
+    """the standard-library based kernels (*_simd.go: s390x/ppc64/wasm) compiled on the host:
+    copied from the working tree with the build constraint removed"""
+    d = os.path.join(hdir, "simdpkg")
+    os.makedirs(d, exist_ok=True)
+    ok = True
+    out = {}
+    for name in ("count_simd.go", "indexbyte_simd.go"):
+        src = os.path.join(REPO, "internal", "bytealg", name)
+        if not os.path.exists(src):
+            ok = False
+            break
+        body = open(src).read()
+        body = re.sub(r'^//go:build.*\n', '', body, flags=re.M)
+        body = re.sub(r'^// \+build.*\n', '', body, flags=re.M)
+        body = re.sub(r'^package bytealg', 'package simdpkg', body, flags=re.M)
+        out[name] = body
+    if ok:
+        out["available.go"] = "package simdpkg\n\nconst Available = true\n"
+    else:
+        out = {"available.go": "package simdpkg\n\nconst Available = false\n\n"
+               "func Count(b []byte, c byte) int { return 0 }\nfunc CountString(s string, c byte) int { return 0 }\n"
+               "func IndexByte(b []byte, c byte) int { return 0 }\nfunc IndexByteString(s string, c byte) int { return 0 }\n"}
+    for f in os.listdir(d):
+        if f not in out:
+            os.remove(os.path.join(d, f))
+    for f, body in out.items():
+        p = os.path.join(d, f)
+        if not os.path.exists(p) or open(p).read() != body:
+            open(p, "w").write(body)
+    st["simdpkg"] = ok
+
+
+def build_variant(name, env_extra):
+    """harness built for another configuration (GOAMD64=v3, GOARCH=386)"""
+    hdir = os.path.join(VERIF, "harness")
+    hb = os.path.join(BUILD, "bin", "harness_" + name)
+    env = dict(GOENV)
+    env.update(env_extra)
+    with Lock(os.path.join(BUILD, ".lock")):
+        rc, out, _ = run(["go", "build", "-tags", "verif,verif_internals", "-o", hb, "."], cwd=hdir, env=env, timeout=900)
+        if rc != 0:
+            rc, out, _ = run(["go", "build", "-tags", "verif", "-o", hb, "."], cwd=hdir, env=env, timeout=900)
+            if rc != 0:
+                raise Infra("harness variant %s does not build:\n%s" % (name, out[-3000:]))
+    return hb
 
 
 def vo_up_to_date(vfile):
